@@ -18,7 +18,8 @@ ASSUMPTIONS = ["send histories are recorded at the client boundary with one stea
                "g++-12 -O1 build of the working tree with harness-side shims"]
 FLOORS = {"sends_checked": {"quick": 8000, "thorough": 150000}, "deliveries_checked": {"quick": 5000, "thorough": 100000},
           "refusals_justified": {"quick": 300, "thorough": 5000}, "scenarios_queue_filled": {"quick": 15, "thorough": 250},
-          "late_sends_refused": {"quick": 150, "thorough": 2500}, "sends_while_loop_waiting": {"quick": 200, "thorough": 4000}}
+          "late_sends_refused": {"quick": 150, "thorough": 2500}, "sends_while_loop_waiting": {"quick": 200, "thorough": 4000},
+          "conflated_noop_deltas_accepted": {"quick": 300, "thorough": 5000}}
 HOOKS = ["rt.mark.before_lock", "rt.mark.before_notify", "ps.send.after_admission", "ps.pop.after_unlock", "ps.eval.after_emit",
          "rt.wait.enter", "rt.wait.leave", "rt.stop.before_lock", "rt.stop.before_notify"]
 
@@ -47,7 +48,51 @@ def gen(rng, k, seed):
     return Scenario(f"c16_{seed}_{k}", kv)
 
 
+def gen_conflating_dict(rng, k, seed):
+    """Conflating source over a dictionary: effective updates interleaved with accepted deltas that change nothing."""
+    kv = dict(kind="cpush", producers=rng.choice([1, 2, 3]), msgs=rng.choice([20, 50, 120]),
+              pacing=rng.choice(["spin", "yield", "sleep:20", "sleep:200", "rand", "rand"]), end_ms=4000, seed=rng.randrange(1 << 30))
+    if rng.random() < 0.5:
+        kv["delays"] = ",".join(f"{h}:{rng.choice([20, 100, 400])}:{rng.choice([1, 3, 7])}" for h in rng.sample(HOOKS, rng.choice([1, 2])))
+    return Scenario(f"c16_{seed}_cd{k}", kv)
+
+
+def check_conflating_dict(sc, tr, rc):
+    V, C = [], {}
+    if tr is None or tr.run is None:
+        return [f"no complete trace (rc={rc})"], C, "inconclusive"
+    if tr.run[2] != "ok":
+        V.append(f"run failed: {tr.errors[:2]}")
+    accepted = {s[2] for s in tr.sends if s[5]}
+    refused = [s for s in tr.sends if not s[5]]
+    stop_call = tr.stop[0] if tr.stop else None
+    for s in refused:
+        if stop_call is None or s[4] < stop_call:
+            V.append(f"send {s[2]} was refused although the conflating source neither fills up nor had been stopped")
+            break
+    expect = {}
+    for tid, mid, op, key, val in tr.cdeltas:        # per key only one producer thread writes: program order == trace order
+        if mid in accepted and op == "set":
+            expect[key] = val
+    state = {}
+    for et, ts, items in tr.dvalues:
+        state.update(items)
+    C["conflated_updates_accepted"] = sum(1 for c in tr.cdeltas if c[1] in accepted and c[2] == "set")
+    C["conflated_noop_deltas_accepted"] = sum(1 for c in tr.cdeltas if c[1] in accepted and c[2] != "set")
+    C["conflated_ticks"] = len(tr.dvalues)
+    times = [et for et, _, _ in tr.dvalues]
+    if any(not a < b for a, b in zip(times, times[1:])):
+        V.append("conflated deliveries are not in strictly increasing engine cycles")
+    if state != expect:
+        lost = {k: v for k, v in expect.items() if state.get(k) != v}
+        V.append(f"{len(lost)} key(s) never reached the sink with their last accepted update although the run continued for 150 ms "
+                 f"after the last send: e.g. {dict(list(lost.items())[:3])} (sink has {dict((k, state.get(k)) for k in list(lost)[:3])})")
+    return V, C, "violation" if V else "held"
+
+
 def check(sc, tr, rc):
+    if sc.kv.get("kind") == "cpush":
+        return check_conflating_dict(sc, tr, rc)
     V, C = [], {}
     kv = sc.kv
     policy, cap = kv["policy"], int(kv["cap"])
@@ -218,7 +263,7 @@ def main(tier, seed, replay):
         rp = json.load(open(replay))
         scs = [Scenario(rp["scenario"]["name"], rp["scenario"]["kv"])]
     else:
-        scs = [gen(rng, k, seed) for k in range(n)]
+        scs = [gen(rng, k, seed) for k in range(n)] + [gen_conflating_dict(rng, k, seed) for k in range(n // 6)]
     results = run_scenarios(exe, scs, f"C16.{tier}.{seed}", workers=8 if tier == "quick" else 12)
     counters, hard, inconc = {}, [], []
     nontriv = set()
